@@ -65,7 +65,7 @@ func (g *G) boolFrag() string { return g.pick("b0", "b1", "!b0", "!b1", "b0 && b
 func (g *G) staticText() string {
 	base := []string{"hello", "a b", "x <em>y</em> z", "tail", "1 & 2", "it's", "a.b", "50% off", "q?", "(p)", "C#", "no. #", "a ##", "#1 x", "a #b c", "x #y", "1 # 2 ##3"}
 	if g.O.NonASCII {
-		base = append(base, "ünï", "日本", "a😀b", "Ċ č Ġ Ĩ ĩ", "Ģ ģ Ĭ ĺ Ŀ Ľ", "Ż Ž ś ŝ Į ĥ į", "上 不 😊", "😀 lead", "𝒳y", "e\u0301 combining")
+		base = append(base, "ünï", "日本", "a😀b", "Ċ č Ġ Ĩ ĩ", "Ģ ģ Ĭ ĺ Ŀ Ľ", "Ż Ž ś ŝ Į ĥ į", "上 不 😊", "😀 lead", "𝒳y", "e\u0301 combining", "bom\ufeffin text", "zw\u200bsp nb\u00a0sp")
 	}
 	if g.O.AdvStatic {
 		base = append(base, `say "hi"`, `back\slash`, "tick`tock", `a\nb`, `\"`, "{x}", "# h", "a#b")
@@ -519,6 +519,8 @@ func GenFile(r *rand.Rand, o Opts, nLayouts, nPages int) *File {
 			f.Templates = append(f.Templates, &Template{Name: fmt.Sprintf("Seq%d", k), Sig: Sig, Body: []*Node{
 				with(p("first block")), without(),
 				{Kind: KElem, Tag: "div", Kids: []*Node{with(with(p("inner")), without()), without()}},
+				// a block that is nothing but another render, which has a block of its own
+				with(with(p("only"))),
 				p("end"),
 			}})
 		}
@@ -553,6 +555,9 @@ func GenFile(r *rand.Rand, o Opts, nLayouts, nPages int) *File {
 			}}, &Template{Name: fmt.Sprintf("FailDeep%d", k), Sig: Sig, Body: []*Node{
 				{Kind: KRender, Callee: callee, Kids: []*Node{{Kind: KElem, Tag: "div", Kids: []*Node{{Kind: KRender, Callee: callee, Kids: []*Node{fail()}}}}}},
 				p("end"),
+			}}, &Template{Name: fmt.Sprintf("FailNest%d", k), Sig: Sig, Body: []*Node{
+				// the failing site two blocks down, the outer block being nothing but the inner render
+				{Kind: KRender, Callee: callee, Kids: []*Node{{Kind: KRender, Callee: callee, Kids: []*Node{p("before"), fail()}}}},
 			}})
 		}
 	}
